@@ -218,8 +218,25 @@ def main_wrapper(fn, pid, tier, seed):
     try:
         fn(ctx)
         rc = ctx.finish()
-    except Exception as e:  # machinery failure: never a pass, never a violation
+    except Exception as e:
         traceback.print_exc()
+        # an exception raised INSIDE the implementation (innermost frame under the repository being checked) at a point
+        # where the check expected none is a divergence of the code, not of the machinery: report it as a violation.
+        # Anything raised by the harness itself stays a machinery failure: never a pass, never a violation.
+        repo = os.path.realpath(os.environ.get("VERIF_REPO", "/repo"))
+        tb = traceback.extract_tb(e.__traceback__)
+        inner = os.path.realpath(tb[-1].filename) if tb else ""
+        if inner.startswith(os.path.join(repo, "setigen") + os.sep) and not isinstance(e, (RuntimeError, MemoryError)):
+            ctx.violation("implementation", "unexpected_exception:%s" % type(e).__name__,
+                          {"action": "unexpected exception", "where": "%s:%s" % (os.path.relpath(inner, repo), tb[-1].name)},
+                          {"exception": "%s: %s" % (type(e).__name__, str(e)[:500]),
+                           "traceback": ["%s:%d %s" % (f.filename, f.lineno, f.name) for f in tb[-6:]]})
+            try:
+                rc = ctx.finish()
+            except Exception:
+                rc = 1
+            sys.stdout.flush()
+            return rc
         print("MACHINERY-FAILURE property=%s: %s" % (pid, str(e)[:2000]))
         shutil.rmtree(ctx.outdir, ignore_errors=True)
         rc = 2
